@@ -98,10 +98,13 @@ type model struct {
 	routes map[routeKey]routeVal
 	expAt  map[routeKey]int64 // virtual ms at which the period of a route is over (absent: never)
 	now    int64
-	gone   int // routes seen to have left the table after their period
+	gone   int             // routes seen to have left the table after their period
+	strat  map[string]bool // prefixes with a strategy choice of their own (matters for the structure bound only)
 }
 
-func newModel() *model { return &model{routes: map[routeKey]routeVal{}, expAt: map[routeKey]int64{}} }
+func newModel() *model {
+	return &model{routes: map[routeKey]routeVal{}, expAt: map[routeKey]int64{}, strat: map[string]bool{}}
+}
 
 func (m *model) apply(op Op) {
 	switch op.Kind {
@@ -124,6 +127,10 @@ func (m *model) apply(op Op) {
 		}
 	case "wait":
 		m.now += op.D
+	case "setstrat":
+		m.strat[op.Name] = true
+	case "unsetstrat":
+		delete(m.strat, op.Name)
 	}
 }
 
@@ -245,7 +252,7 @@ type rawOp struct {
 
 func genRaw(t *rapid.T) rawOp {
 	return rawOp{
-		Kind:   rapid.SampledFrom([]string{"add", "add", "add", "add", "add", "add", "add", "add", "rm", "rm", "rm", "rm", "cleanup", "cleanup", "facedown", "facedown", "wait", "wait"}).Draw(t, "kind"),
+		Kind:   rapid.SampledFrom([]string{"add", "add", "add", "add", "add", "add", "add", "add", "rm", "rm", "rm", "rm", "cleanup", "cleanup", "facedown", "facedown", "wait", "wait", "setstrat", "unsetstrat"}).Draw(t, "kind"),
 		Lit:    genName(t, "n"),
 		How:    rapid.IntRange(0, 9).Draw(t, "how"),
 		Ref:    rapid.IntRange(0, 1000).Draw(t, "ref"),
@@ -253,7 +260,7 @@ func genRaw(t *rapid.T) rawOp {
 		X2:     rapid.SampledFrom(alphabet).Draw(t, "x2"),
 		Face:   uint64(rapid.IntRange(1, 4).Draw(t, "face")),
 		Origin: rapid.SampledFrom([]uint64{0, 0, 65, 128, 255}).Draw(t, "origin"),
-		Cost:   rapid.SampledFrom([]uint64{0, 1, 2, 5, 10, 1 << 33}).Draw(t, "cost"),
+		Cost:   rapid.SampledFrom([]uint64{0, 0, 1, 1, 2, 2, 5, 10, 1 << 33, 1 << 63, 1<<64 - 1}).Draw(t, "cost"),
 		Flags:  uint64(rapid.IntRange(0, 3).Draw(t, "flags")),
 		RmEx:   rapid.IntRange(0, 4).Draw(t, "rmex") > 0,
 		Exp:    rapid.SampledFrom([]int64{-1, -1, -1, -1, -1, -1, 0, 50, 1000, 60000}).Draw(t, "exp"),
@@ -320,6 +327,13 @@ func genCase(t *rapid.T) Case {
 			}
 		case "wait":
 			op = Op{Kind: "wait", D: r.D}
+		case "setstrat", "unsetstrat":
+			// strategy choices live in the same table as the next hops the RIB publishes; they say nothing
+			// about next hops (the reference ignores them). Never the root: it cannot be unset.
+			op = Op{Kind: r.Kind, Name: pick(r)}
+			if op.Name == "/" {
+				op = Op{Kind: "wait", D: 1}
+			}
 		default:
 			op = Op{Kind: r.Kind, Face: r.Face}
 		}
@@ -391,6 +405,10 @@ func applyOp(op Op) {
 	case "wait":
 		time.Sleep(time.Duration(op.D) * time.Millisecond)
 		synctest.Wait()
+	case "setstrat":
+		table.FibStrategyTable.SetStrategyEnc(mkName(op.Name), mkName("/localhost/nfd/strategy/multicast/v=1"))
+	case "unsetstrat":
+		table.FibStrategyTable.UnSetStrategyEnc(mkName(op.Name))
 	case "rm":
 		table.Rib.RemoveRouteEnc(mkName(op.Name), op.Face, op.Origin)
 	case "cleanup":
@@ -590,7 +608,7 @@ func runC06(c Case) (res evid.Result) {
 	return res
 }
 
-const ruleC06 = "rapid histories (<=40 ops) of AddEncRoute (re-registration with changed cost/flags included), RemoveRouteEnc, Rib.CleanUpFace and face.FaceTable.Remove over nested prefixes from {a,b,c,32=a,32=b}^0..4 (gap chains, siblings - also siblings differing only in the component type -, root), optional ExpirationPeriod (0, 50 ms, 1 s, 60 s) and virtual-time waits around those periods (a route whose period is over may stay or go: the reference adopts what the RIB lists; one without a period never goes), faces 1..4, origins {0,65,128,255}, all four flag combinations, on the name-tree or hash-table FIB; after every op FindNextHopsEnc over the universe, GetAllFIBEntries and Rib.GetAllEntries are compared with a from-scratch flattening of the harness's own route multiset. Non-trivial: history with a gap chain, >=1 capture flag and >=1 effective removal or face clean-up; distinct by case hash"
+const ruleC06 = "rapid histories (<=40 ops) of AddEncRoute (re-registration with changed cost/flags included), RemoveRouteEnc, Rib.CleanUpFace and face.FaceTable.Remove over nested prefixes from {a,b,c,32=a,32=b}^0..4 (gap chains, siblings - also siblings differing only in the component type -, root), costs up to 2^64-1, strategy choices set and unset on the same prefixes in between, optional ExpirationPeriod (0, 50 ms, 1 s, 60 s) and virtual-time waits around those periods (a route whose period is over may stay or go: the reference adopts what the RIB lists; one without a period never goes), faces 1..4, origins {0,65,128,255}, all four flag combinations, on the name-tree or hash-table FIB; after every op FindNextHopsEnc over the universe, GetAllFIBEntries and Rib.GetAllEntries are compared with a from-scratch flattening of the harness's own route multiset. Non-trivial: history with a gap chain, >=1 capture flag and >=1 effective removal or face clean-up; distinct by case hash"
 
 func TestC06Rib(t *testing.T) {
 	rec := evid.New("C06", "TestC06Rib", ruleC06)
